@@ -494,6 +494,22 @@ class Model():
                     f'attacker is not part of model "{self.name}".'
                 )
 
+        # One entry point tuple per asset, which is what add_entry_point,
+        # remove_entry_point and the serialized form rely on: merge attack
+        # steps that were given in separate tuples for the same asset.
+        merged_entry_points: list = []
+        for entry_point_asset, attack_steps in attacker.entry_points:
+            merged_tuple = next((entry_point_tuple for entry_point_tuple \
+                in merged_entry_points \
+                if entry_point_tuple[0] is entry_point_asset), None)
+            if merged_tuple is None:
+                merged_entry_points.append(
+                    (entry_point_asset, list(attack_steps)))
+            else:
+                merged_tuple[1].extend(attack_step for attack_step \
+                    in attack_steps if attack_step not in merged_tuple[1])
+        attacker.entry_points = merged_entry_points
+
         if attacker_id is not None:
             attacker.id = attacker_id
         else:
